@@ -735,6 +735,14 @@ func (e *SpecEnv) ufCall(x *ast.CallExpr) Val {
 		ret = vc.strSort()
 		ty = types.Typ[types.String]
 	}
+	if strings.HasPrefix(name, "err") {
+		ret = "Iface"
+		ty = types.Universe.Lookup("error").Type()
+	}
+	if strings.HasPrefix(name, "ref") {
+		ret = "Ref"
+		ty = types.Typ[types.UnsafePointer]
+	}
 	fn := "uf_" + sanitize(name)
 	vc.decl("fun:"+fn, fmt.Sprintf("(declare-fun %s (%s) %s)", fn, strings.Join(sorts, " "), ret))
 	if len(terms) == 0 {
